@@ -22,6 +22,14 @@ func (m *Manager) SyncLoop(ctx context.Context, errCh chan<- error) {
 	metricsTicker := time.NewTicker(30 * time.Second)
 	defer metricsTicker.Stop()
 
+	// The caches loaded from disk may already hold both parts of the next block(s), e.g. when the node was
+	// stopped in the middle of applying a run of cached blocks. Their events are marked as seen and will not
+	// be delivered again, so apply them now instead of waiting for an unrelated event to trigger it.
+	if err := m.trySyncNextBlock(ctx, m.daHeight.Load()); err != nil {
+		errCh <- fmt.Errorf("failed to sync next block: %w", err)
+		return
+	}
+
 	for {
 		select {
 		case <-daTicker.C:
